@@ -523,10 +523,19 @@ func Child(c *run.Ctx, name string) {
 			step = time.Second
 		}
 		o := logq.GenOpts{Hostile: false, JSONLines: r.Intn(3) == 0, Numeric: true, MaxSeries: 6, MaxSamples: 25, StartNs: start, EndNs: end, StepAlign: int64(rng)}
+		if gi%3 == 1 && r.Intn(2) == 0 {
+			o.MaxSeries, o.MaxSamples = 40, 40
+		}
 		db := logq.NewDB(r, o)
 		req := logq.Request{Metric: logq.GenMetricQuery(r, db, o, rng), StartNs: start, EndNs: end, Step: step}
 		cluster := gi%7 == 6
 		rn := runners[cluster]
+		// every third case: a consumer that pauses after every message (a slow client) and a database big enough for
+		// results of several hundred rows (the result scanner hands rows on in slices of 100)
+		rn.Pace = 0
+		if gi%3 == 1 {
+			rn.Pace = 150 * time.Microsecond
+		}
 		ch := db.Load(cluster)
 		shape := req.Shape()
 		c.BeginCase(gi, map[string]any{"query": req.QueryString(), "shape": shape})
